@@ -191,6 +191,7 @@ struct Engine {
 		int redFull = 0, redEvent = 0, redGuard = 0, redGuardInitial = 0, redLife = 0, redPlanResult = 0;
 		bool inInitial = false;	 // inside the very first activation (no cancel allowed there)
 		bool flood = false;		 // every update() callback requests a transition (capacity alphabet)
+		bool hiddenInKey = false;  // C11: the task pool's internal cursors are part of the state key
 		std::function<void(int /*cbKind*/, int /*state*/, int /*meth*/, void* /*control*/)> inCallback;
 	};
 	static Globals& G() { static Globals g; return g; }
@@ -835,6 +836,13 @@ struct Engine {
 			}
 #if VT_PLANS
 			k += planKey();
+			if (G().hiddenInKey) {
+				// C11: the pool's internal cursors are not observable through the plan API, but a stale one is exactly what a later
+				// capacity overrun grows from - states that differ in them are kept apart
+				const auto& tl = fsm->_core.planData.tasks;
+				if (tl._vacantHead || tl._vacantTail || tl._last || tl._count)
+					k += "|H" + str((int) tl._vacantHead) + "," + str((int) tl._vacantTail) + "," + str((int) tl._last) + "," + str((int) tl._count);
+			}
 #endif
 			return k;
 		}
